@@ -311,6 +311,10 @@ def generate(repo):
                                       doc='the reduced temperature `t_K` (= `t / K`) of `sulfuric_acid_density` (function cut before `t_arr = ...`)'))
     parts.append(tf(tsrc, ttree, 'sulfuric_acid_density', lean_name='sulfuricTU', params=['w', 'T'], units_mode=True,
                                       extra_funcs=TU, doc='`t_K` (= `to_unitless(t / K)`) of `sulfuric_acid_density` with a units object'))
+    parts.append(tf(tsrc, ttree, 'sulfuric_acid_density', lean_name='sulfuricTdef', params=['w'],
+                    doc='`t_K` of `sulfuric_acid_density(w)`: T = None -> 298.15 * K (units=None)'))
+    parts.append(tf(tsrc, ttree, 'sulfuric_acid_density', lean_name='sulfuricTT0', params=['w', 'T', 'T0'],
+                    doc='`t_K` of `sulfuric_acid_density(w, T, T0)` with an explicit zero of the Celsius scale (units=None)'))
     usrc, utree = truncated(src, tree, 'sulfuric_acid_density', is_tarr, 'kg / m3')
     parts.append(tf(usrc, utree, 'sulfuric_acid_density', lean_name='sulfuricUnitU', params=['w', 'T'], units_mode=True, extra_funcs=TU,
                                       doc='the unit `kg / m3` multiplied onto the sum in `sulfuric_acid_density` with a units object'))
